@@ -10,7 +10,8 @@ Definition SIG : Z := 1245859660.                      (* 0x4A424F4C "LOBJ" *)
 Definition SIGB : list Z := [76; 79; 66; 74].
 Definition rules_std : list (Z * Z * Z) :=
   [(4294967040, 1112493056, -3); (4294901760, 1330380800, -2); (4278190080, 1275068416, -1)].
-Definition sp_std (f : Z) : scan_params := {| sp_sig := SIG; sp_rules := rules_std; sp_field := f |}.
+(* sf: what ends the search after a mismatch (see Sem.scan_stop) — the theorems here hold for either choice *)
+Definition sp_std (f : Z) (sf : bool) : scan_params := {| sp_sig := SIG; sp_rules := rules_std; sp_field := f; sp_stop_on_fail := sf |}.
 
 Lemma sig_bytes : le_dec SIGB = SIG. Proof. reflexivity. Qed.
 
@@ -94,11 +95,11 @@ Qed.
 
 (* one iteration on a full window that is not the signature: the cursor moves to the next
    position at which the signature can still start *)
-Lemma scan_step f n tmp s b0 b1 b2 b3 r :
+Lemma scan_step f sf n tmp s b0 b1 b2 b3 r :
   nstream s -> s_after s = b0 :: b1 :: b2 :: b3 :: r -> byte b0 -> byte b1 -> byte b2 -> byte b3 ->
   [b0; b1; b2; b3] <> SIGB -> 0 <= tmp ->
-  scan_loop (sp_std f) (S n) tmp s =
-  scan_loop (sp_std f) n (le_dec [b0; b1; b2; b3]) (advance (4 + abs_rule b1 b2 b3) s true false).
+  scan_loop (sp_std f sf) (S n) tmp s =
+  scan_loop (sp_std f sf) n (le_dec [b0; b1; b2; b3]) (advance (4 + abs_rule b1 b2 b3) s true false).
 Proof.
   intros Hs Ha H0 H1 H2 H3 Hne Ht. cbn [scan_loop].
   assert (Hl : 0 <= 4 <= zlen (s_after s)) by (rewrite Ha; rewrite !zlen_cons; pose proof (zlen_nonneg r); lia).
@@ -108,7 +109,7 @@ Proof.
   replace ((b0 =? 76) && (b1 =? 79) && (b2 =? 66) && (b3 =? 74)) with false.
   2:{ symmetry. apply not_true_is_false. intros E. apply Hne. unfold SIGB. repeat (apply andb_prop in E; destruct E as [E ?]).
       apply Z.eqb_eq in E. repeat match goal with H : (_ =? _) = true |- _ => apply Z.eqb_eq in H end. subst. reflexivity. }
-  replace (s_eof (advance 4 s true false)) with false by reflexivity.
+  replace (scan_stop (sp_std f sf) (advance 4 s true false)) with false by (destruct sf; reflexivity).
   rewrite scan_rule_abs by assumption.
   unfold abs_rule.
   destruct ((b1 =? 76) && (b2 =? 79) && (b3 =? 66)).
@@ -148,17 +149,17 @@ Proof. unfold SIGB, byte. repeat constructor; lia. Qed.
 (* Whatever bytes precede it, the loop stops exactly behind the FIRST occurrence of the signature:
    s_after s = pre ++ "LOBJ" ++ rest, no window starting inside pre is the signature (pre may end
    with any proper prefix of the signature, may contain 'L', "LO", "LOB" anywhere), any stale tmp. *)
-Theorem scan_finds_first : forall f fuel pre rest s tmp,
+Theorem scan_finds_first : forall f sf fuel pre rest s tmp,
   nstream s -> Forall byte pre -> s_after s = pre ++ SIGB ++ rest ->
   no_sig_before (length pre) (pre ++ SIGB ++ rest) -> (length pre < fuel)%nat -> 0 <= tmp ->
-  scan_loop (sp_std f) fuel tmp s = Ok (SIG, advance (zlen pre + 4) s true false).
+  scan_loop (sp_std f sf) fuel tmp s = Ok (SIG, advance (zlen pre + 4) s true false).
 Proof.
-  intros f. induction fuel as [|n IH]; intros pre rest s tmp Hs Hb Ha Hno Hf Ht; [lia|].
+  intros f sf. induction fuel as [|n IH]; intros pre rest s tmp Hs Hb Ha Hno Hf Ht; [lia|].
   assert (Hle : forall w, 0 <= le_dec w \/ True) by (intros; right; exact I).
   (* how an application of the induction hypothesis after a step of k bytes closes the goal *)
   assert (STEP : forall k pre' w, (1 <= k <= 4)%nat -> pre' = skipn k pre -> (k <= length pre)%nat ->
             0 <= le_dec w ->
-            scan_loop (sp_std f) n (le_dec w) (advance (Z.of_nat k) s true false) = Ok (SIG, advance (zlen pre + 4) s true false)).
+            scan_loop (sp_std f sf) n (le_dec w) (advance (Z.of_nat k) s true false) = Ok (SIG, advance (zlen pre + 4) s true false)).
   { intros k pre' w Hk Hp Hkl Hw.
     assert (Hsplit : pre ++ SIGB ++ rest = firstn k pre ++ pre' ++ SIGB ++ rest).
     { rewrite <- (firstn_skipn k pre) at 1. rewrite <- app_assoc. rewrite Hp. reflexivity. }
@@ -194,20 +195,20 @@ Proof.
     destruct pre as [|p1 pre].
     + (* one byte before the signature: window p0 L O B *)
       cbn [app] in *. unfold SIGB in Ha at 1. cbn [app] in Ha.
-      rewrite (scan_step f n tmp s p0 76 79 66 (74 :: rest) Hs Ha B0 S0 S1 S2 W0 Ht).
+      rewrite (scan_step f sf n tmp s p0 76 79 66 (74 :: rest) Hs Ha B0 S0 S1 S2 W0 Ht).
       replace (4 + abs_rule 76 79 66) with (Z.of_nat 1) by reflexivity.
       apply (STEP 1%nat [] [p0; 76; 79; 66]); [lia|reflexivity|cbn; lia|apply LD; assumption].
     + inversion Hb1 as [|? ? B1 Hb2]; subst. destruct pre as [|p2 pre].
       * (* two bytes before: window p0 p1 L O *)
         cbn [app] in *. unfold SIGB in Ha at 1. cbn [app] in Ha.
-        rewrite (scan_step f n tmp s p0 p1 76 79 (66 :: 74 :: rest) Hs Ha B0 B1 S0 S1 W0 Ht).
+        rewrite (scan_step f sf n tmp s p0 p1 76 79 (66 :: 74 :: rest) Hs Ha B0 B1 S0 S1 W0 Ht).
         assert (E : abs_rule p1 76 79 = -2) by (unfold abs_rule; replace (76 =? 79) with false by reflexivity; rewrite andb_false_r; reflexivity).
         rewrite E. replace (4 + -2) with (Z.of_nat 2) by reflexivity.
         apply (STEP 2%nat [] [p0; p1; 76; 79]); [lia|reflexivity|cbn; lia|apply LD; assumption].
       * inversion Hb2 as [|? ? B2 Hb3]; subst. destruct pre as [|p3 pre].
         -- (* three bytes before: window p0 p1 p2 L *)
            cbn [app] in *. unfold SIGB in Ha at 1. cbn [app] in Ha.
-           rewrite (scan_step f n tmp s p0 p1 p2 76 (79 :: 66 :: 74 :: rest) Hs Ha B0 B1 B2 S0 W0 Ht).
+           rewrite (scan_step f sf n tmp s p0 p1 p2 76 (79 :: 66 :: 74 :: rest) Hs Ha B0 B1 B2 S0 W0 Ht).
            assert (E : abs_rule p1 p2 76 = -1).
            { unfold abs_rule. replace (76 =? 66) with false by reflexivity. rewrite andb_false_r.
              replace (76 =? 79) with false by reflexivity. rewrite andb_false_r. reflexivity. }
@@ -215,7 +216,7 @@ Proof.
            apply (STEP 3%nat [] [p0; p1; p2; 76]); [lia|reflexivity|cbn; lia|apply LD; assumption].
         -- (* at least four bytes before: any of the four moves stays in front of the signature *)
            inversion Hb3 as [|? ? B3 Hb4]; subst. cbn [app] in Ha.
-           rewrite (scan_step f n tmp s p0 p1 p2 p3 (pre ++ SIGB ++ rest) Hs Ha B0 B1 B2 B3 W0 Ht).
+           rewrite (scan_step f sf n tmp s p0 p1 p2 p3 (pre ++ SIGB ++ rest) Hs Ha B0 B1 B2 B3 W0 Ht).
            unfold abs_rule.
            destruct ((p1 =? 76) && (p2 =? 79) && (p3 =? 66)).
            ++ replace (4 + -3) with (Z.of_nat 1) by reflexivity.
@@ -232,6 +233,6 @@ Qed.
 
 (* non-vacuity: "xLOLOBLOBJ" — the first signature starts at offset 6 *)
 Example scan_example :
-  scan_loop (sp_std 0) 20 0 (mk_ustream [120; 76; 79; 76; 79; 66; 76; 79; 66; 74; 1; 2]) =
+  scan_loop (sp_std 0 true) 20 0 (mk_ustream [120; 76; 79; 76; 79; 66; 76; 79; 66; 74; 1; 2]) =
   Ok (SIG, advance 10 (mk_ustream [120; 76; 79; 76; 79; 66; 76; 79; 66; 74; 1; 2]) true false).
 Proof. vm_compute. reflexivity. Qed.
